@@ -40,5 +40,19 @@ def autotune : P String := do
   let w := Float.pow (Float.ofNat (i + 1)) (-lr)
   pure (fmtHexFloat (autotuneStep Float.isNaN w tg ms a st) ++ " " ++ fmtHexFloat w)
 
+/-- `tunerun <lr> <target> <minstep> <step0> <accs>` → recorded steps, final step -/
+def tunerun : P String := do
+  let lr ← pFloat; let tg ← pFloat; let ms ← pFloat; let st ← pFloat; let accs ← pVec
+  pEnd
+  let weight : Nat → Float := fun i => Float.pow (Float.ofNat (i + 1)) (-lr)
+  let t := tuneRun Float.isNaN weight tg ms ⟨st, [], []⟩ 0 accs.a.toList
+  pure (fmtVec (FVec.ofList t.steps) ++ " " ++ fmtHexFloat t.step)
+
+/-- `lrok <lr>` -/
+def lrok : P String := do
+  let lr ← pFloat
+  pEnd
+  pure (fmtBool (learningRateOk lr))
+
 end C02
 end HmcVerif
